@@ -353,6 +353,8 @@ class ListV:
     def __init__(self, ty, arr, n, idx=None):
         self.ty, self.arr, self.n, self.idx = ty, arr, n, idx
 
+    rank = None
+
     def replace(self, **kw):
         d = ListV(self.ty, self.arr, self.n, self.idx)
         for k, v in kw.items():
